@@ -189,11 +189,23 @@ def pmap(fn, arglist, procs=None, chunksize=1, maxtasks=None):
     else:
         ctx = multiprocessing.get_context("fork")
         _PMAP_FN[0] = fn
+        import gc
+        import concurrent.futures as cf
+        # the parent's heap (visited sets, frontiers) is inherited copy-on-write: keep the children's collector from
+        # touching (and thereby copying) it
+        gc.collect()
+        gc.freeze()
         try:
-            with ctx.Pool(procs, maxtasksperchild=maxtasks) as pool:
-                out = pool.map(_call_global, arglist, chunksize)
+            if maxtasks is None:
+                # an executor (unlike multiprocessing.Pool) notices a worker that died (e.g. killed for memory) and raises
+                with cf.ProcessPoolExecutor(procs, mp_context=ctx) as pool:
+                    out = list(pool.map(_call_global, arglist, chunksize=chunksize))
+            else:
+                with ctx.Pool(procs, maxtasksperchild=maxtasks) as pool:
+                    out = pool.map(_call_global, arglist, chunksize)
         finally:
             _PMAP_FN[0] = None
+            gc.unfreeze()
     res = []
     for tag, v in out:
         if tag == "err":
